@@ -505,6 +505,13 @@ impl Ctx {
 			}
 		}
 
+		// totals counted by the proptest driver (it records one example per shard only)
+		for k in known.iter().filter(|k| k.status == "open" && k.property == self.prop) {
+			let total: u64 = self.fams.iter().map(|f| f.excluded.get(&format!("known:{}", k.signature)).copied().unwrap_or(0)).sum();
+			if let Some(e) = known_hits.get_mut(&k.id) {
+				e.0 = e.0.max(total);
+			}
+		}
 		for (id, (n, what, msg)) in &known_hits {
 			println!(
 				"KNOWN-FINDING: property={} id={} occurrences={} {} [e.g. {}]",
